@@ -7,7 +7,7 @@ From Flocq Require Import Core BinarySingleNaN.
 From SV Require Import Num.Mod360 Num.Mod360Proofs Num.AngleSites Num.AngleSitesProofs
                        Num.Dec6 Num.Dec6Proofs Num.Dec6CarveProofs Num.VecText Num.VecTextProofs Num.Mod360Id Num.VecTextFloat SM.FrozenOps SM.FrozenOpsProofs SM.FrozenCopy SM.FrozenCopyProofs
                        SM.FrozenCopyValue SM.FrozenCopyValueProofs Num.AngleText Num.AngleTextProofs
-                       Num.AngleCtor Num.AngleCtorProofs.
+                       Num.AngleCtor Num.AngleCtorProofs SM.FrozenHash SM.FrozenHashProofs.
 Import ListNotations.
 
 (** ------------------------------------------------------------------ (a) range *)
@@ -148,6 +148,49 @@ Theorem c05_copy_value_refuted :
   copy_shapes_ok [("Vec"%string, "copy"%string, "Vec"%string, CSlots swapped)] = false /\
   built nat (fun v => v) 0%nat swapped (fun s => if String.eqb s "_y" then 1%nat else if String.eqb s "_z" then 2%nat else 0%nat) "_y"%string = 2%nat.
 Proof. exact copy_value_refuted. Qed.
+
+(** Hash of frozen values (round 4).  [hash_kinds] = what hash(obj) is for each concrete class, read from the source.
+    For every table that passes [hash_table_ok] (mutable classes unhashable; a hashable class is frozen and its hash is
+    a function of ALL of its slots and of nothing else; FrozenVec and FrozenAngle hashable): *)
+
+(** equal values hash equal, wherever the two objects live (a copy, a pickle, thaw().freeze() of a dictionary key finds it) *)
+Theorem c05_hash_same_value : forall (V X H : Type) (get : V -> string -> X) (hf : list X -> H) (ident : nat -> H) rows,
+  hash_table_ok rows = true -> forall c a b i j, same_value V X get c a b ->
+  hash_of V X H get hf ident rows i (c, a) = hash_of V X H get hf ident rows j (c, b).
+Proof. exact hash_same_value. Qed.
+
+(** the hash ignores no component *)
+Theorem c05_hash_reads_every_slot : forall rows, hash_table_ok rows = true ->
+  forall c l, FrozenHash.lookup c rows = Some (HSlots l) -> forall s, In s (family_slots c) -> In s l.
+Proof. exact hash_reads_every_slot. Qed.
+
+(** only frozen classes are hashable *)
+Theorem c05_hashable_is_frozen : forall (V X H : Type) (get : V -> string -> X) (hf : list X -> H) (ident : nat -> H) rows,
+  hash_table_ok rows = true -> forall c i v h, hash_of V X H get hf ident rows i (c, v) = Some h -> frozen_class c = true.
+Proof. exact hashable_is_frozen. Qed.
+
+(** composed with the frame theorem: the hash of a frozen object is the same after EVERY history of public calls *)
+Theorem c05_frozen_hash_stable : forall (V X H : Type) (get : V -> string -> X) (hf : list X -> H) (ident : nat -> H) table carve rows,
+  table_ok table carve = true ->
+  forall h st i r, good_history V table carve h st ->
+  nth_error st i = Some r -> frozen_class (fst r) = true ->
+  exists r', nth_error (FrozenOps.run V table h st) i = Some r' /\
+             hash_of V X H get hf ident rows i r' = hash_of V X H get hf ident rows i r.
+Proof. exact frozen_hash_stable. Qed.
+
+(** in-place operators: for every census [inplace_rows] that passes, no class of a frozen object (nor a base class
+    of one) defines an __iOP__ method: `frozen op= y` can only rebind the name to the result of the binary operator *)
+Theorem c05_inplace_never_on_frozen : forall rows, inplace_ok rows = true ->
+  forall c m, In (c, m) rows -> frozen_reachable c = false /\ frozen_class c = false.
+Proof. exact inplace_never_on_frozen. Qed.
+
+(** an identity hash on a frozen class is rejected: equal values in two registers hash differently *)
+Theorem c05_hash_identity_refuted :
+  let rows := [("FrozenVec"%string, HIdentity)] in
+  hash_table_ok rows = false /\ bad_hash_rows rows = ["FrozenVec"%string] /\
+  hash_of nat nat nat (fun v _ => v) (fun l => 0%nat) (fun i => i) rows 0 ("FrozenVec"%string, 7%nat)
+  <> hash_of nat nat nat (fun v _ => v) (fun l => 0%nat) (fun i => i) rows 1 ("FrozenVec"%string, 7%nat).
+Proof. exact hash_identity_refuted. Qed.
 
 (** ------------------------------------------------------------------ (c) text *)
 
